@@ -271,6 +271,10 @@ fn c07_errors(rep: &mut Report, r: &mut Rng, shard: u64, nshards: u64) {
     for (s, _) in named_statuses() {
         errors.push((format!("with_code({:?})", s), HandlingError::with_code(s, format!("diag {:?}", s))));
     }
+    // long diagnostics: alone below the message size limit, together with what the reply already carries above it
+    for len in [600usize, 1270, 1281, 3000, 70_000] {
+        errors.push((format!("internal({}B diagnostic)", len), HandlingError::internal("d".repeat(len))));
+    }
     for (name, err) in errors {
         eidx += 1;
         if eidx % nshards != shard {
@@ -291,9 +295,22 @@ fn c07_errors(rep: &mut Report, r: &mut Rng, shard: u64, nshards: u64) {
                         }
                     }
                     // ... or re-targeted it (separate response: own type and message id), or touched other parts
-                    let premut = r.below(4);
+                    let premut = r.below(6);
                     if let Some(resp) = rq.response.as_mut() {
                         match premut {
+                            4 => {
+                                // a reply that already carries a lot (e.g. what a block handler or the application put there)
+                                resp.message.add_option(CoapOption::ETag, vec![9; 8]);
+                                resp.message.add_option(CoapOption::LocationPath, vec![b'l'; 255]);
+                                resp.message.add_option(CoapOption::LocationPath, vec![b'm'; 255]);
+                                resp.message.add_option(CoapOption::LocationQuery, vec![b'q'; 200]);
+                                resp.message.add_option(CoapOption::Block2, vec![0x0e]);
+                            }
+                            5 => {
+                                resp.message.add_option(CoapOption::Unknown(2000), vec![0x62; 1200 + r.usize_below(200)]);
+                                resp.message.add_option(CoapOption::MaxAge, vec![0]);
+                                resp.message.add_option(CoapOption::Block1, vec![0x16]);
+                            }
                             1 => {
                                 resp.message.header.set_type(coap_lite::MessageType::Confirmable);
                                 resp.message.header.message_id = resp.message.header.message_id.wrapping_add(77);
